@@ -31,9 +31,28 @@ func (fr *frame) evalCall(p *Path, e *ast.CallExpr) []PV {
 			return fr.evalBuiltin(p, e, b.Name())
 		}
 		if v, ok := fr.info.Uses[id].(*types.Var); ok {
-			// call of a function value (closure)
-			cv, _ := p.Vars[v].(*ClosureVal)
-			return fr.callClosure(p, e, cv, v.Name())
+			// call of a function value (closure, named function, method value) held in a variable
+			return fr.callFuncValue(p, e, p.Vars[v], v.Name())
+		}
+	}
+	if fl, ok := ast.Unparen(e.Fun).(*ast.FuncLit); ok {
+		// immediately invoked function literal
+		var out []PV
+		for _, fv := range fr.eval(p, fl) {
+			out = append(out, fr.callFuncValue(fv.P, e, fv.V, "function literal")...)
+		}
+		return out
+	}
+	if se, ok := e.Fun.(*ast.SelectorExpr); ok {
+		// call of a function-typed field of a local record: row.title(lang)
+		if sel, ok := fr.info.Selections[se]; ok && sel.Kind() == types.FieldVal {
+			if _, isSig := sel.Type().Underlying().(*types.Signature); isSig {
+				var out []PV
+				for _, fv := range fr.eval(p, se) {
+					out = append(out, fr.callFuncValue(fv.P, e, fv.V, "field "+se.Sel.Name)...)
+				}
+				return out
+			}
 		}
 	}
 	if ix, ok := e.Fun.(*ast.IndexExpr); ok {
@@ -41,8 +60,7 @@ func (fr *frame) evalCall(p *Path, e *ast.CallExpr) []PV {
 		if _, isSig := fr.info.Types[ix].Type.Underlying().(*types.Signature); isSig {
 			var out []PV
 			for _, fv := range fr.eval(p, ix) {
-				cv, _ := fv.V.(*ClosureVal)
-				out = append(out, fr.callClosure(fv.P, e, cv, "element")...)
+				out = append(out, fr.callFuncValue(fv.P, e, fv.V, "element")...)
 			}
 			return out
 		}
@@ -303,7 +321,12 @@ func (fr *frame) callClosure(p *Path, e *ast.CallExpr, cv *ClosureVal, what stri
 		saved := q.Vars
 		q.Vars = map[types.Object]Value{}
 		for k, vv := range cv.Env {
-			q.Vars[k] = vv
+			// captured by reference: a variable of the calling frame has its current value, not the one at creation
+			if cur, ok := saved[k]; ok {
+				q.Vars[k] = cur
+			} else {
+				q.Vars[k] = vv
+			}
 		}
 		i := 0
 		for _, fl := range cv.Lit.Type.Params.List {
@@ -316,6 +339,19 @@ func (fr *frame) callClosure(p *Path, e *ast.CallExpr, cv *ClosureVal, what stri
 		}
 		var rets []*Path
 		sub := &frame{fi: cv.Fi, info: cv.Info, rets: &rets, depth: fr.depth + 1}
+		if cv.Lit.Type.Results != nil {
+			var nv []*types.Var
+			for _, fl := range cv.Lit.Type.Results.List {
+				if len(fl.Names) == 0 {
+					nv = append(nv, nil)
+				}
+				for _, nm := range fl.Names {
+					v, _ := cv.Info.Defs[nm].(*types.Var)
+					nv = append(nv, v)
+				}
+			}
+			sub.bindNamed(q, nv)
+		}
 		live := sub.execBlock([]*Path{q}, cv.Lit.Body.List)
 		for _, r := range append(live, rets...) {
 			if r.Dead {
@@ -329,7 +365,15 @@ func (fr *frame) callClosure(p *Path, e *ast.CallExpr, cv *ClosureVal, what stri
 			}
 			r.Returned = false
 			r.Ret = nil
-			r.Vars = copyVars(saved)
+			nv := copyVars(saved)
+			for k := range cv.Env {
+				if _, ok := saved[k]; ok {
+					if fin, ok := r.Vars[k]; ok {
+						nv[k] = fin // assignments to captured variables are visible to the caller
+					}
+				}
+			}
+			r.Vars = nv
 			out = append(out, PV{r, val})
 		}
 	}
@@ -500,6 +544,15 @@ func (fr *frame) callInline(p *Path, e *ast.CallExpr, fi *FuncInfo, recv Value, 
 	bindParams(p, fi, recv, args)
 	var rets []*Path
 	sub := &frame{fi: fi, info: fi.Pkg.TypesInfo, rets: &rets, depth: fr.depth + 1}
+	{
+		var nv []*types.Var
+		for i := 0; i < fi.Sig.Results().Len(); i++ {
+			nv = append(nv, fi.Sig.Results().At(i))
+		}
+		if len(nv) > 0 {
+			sub.bindNamed(p, nv)
+		}
+	}
 	live := sub.execBlock([]*Path{p}, fi.Decl.Body.List)
 	var out []PV
 	for _, r := range append(live, rets...) {
@@ -1530,7 +1583,7 @@ func (fr *frame) rangeSlice(p *Path, s *loopShape, sv *SliceVal) []*Path {
 	// 1. initialisation
 	evalInv(p, mkInt(0), false, "loopinit")
 	// 2. havoc
-	assigned := assignedOuterVars(fr.info, s.Body)
+	assigned := notExitOnly(fr.info, s.Body, assignedOuterVars(fr.info, s.Body))
 	havoc := func(q *Path) {
 		for _, obj := range assigned {
 			if old, ok := q.Vars[obj]; ok {
@@ -1547,6 +1600,7 @@ func (fr *frame) rangeSlice(p *Path, s *loopShape, sv *SliceVal) []*Path {
 		}
 	}
 	// 3. preservation
+	var broken []*Path
 	body := p.clone()
 	havoc(body)
 	i := c.fresh("i", SInt)
@@ -1564,8 +1618,11 @@ func (fr *frame) rangeSlice(p *Path, s *loopShape, sv *SliceVal) []*Path {
 				continue
 			}
 			if q.Brk {
-				c.untranslatable(s.Pos(), "break in a loop over a symbolic slice (loops with invariants run to the end or return)")
-				q.Brk = false
+				// the iteration leaves the loop: the path goes on after the loop with the state it has (like a return from
+				// inside the loop, nothing is claimed about later elements)
+				q.Brk, q.Cont = false, false
+				broken = append(broken, q)
+				continue
 			}
 			q.Cont = false
 			evalInv(q, tIntBin("+", i, mkInt(1)), false, "looppres")
@@ -1576,9 +1633,9 @@ func (fr *frame) rangeSlice(p *Path, s *loopShape, sv *SliceVal) []*Path {
 	havoc(exit)
 	evalInv(exit, sv.Len, true, "")
 	if exit.Dead {
-		return nil
+		return broken
 	}
-	return []*Path{exit}
+	return append([]*Path{exit}, broken...)
 }
 
 func assignedOuterVars(info *types.Info, body *ast.BlockStmt) []*types.Var {
@@ -1816,7 +1873,7 @@ func constInt(info *types.Info, e ast.Expr) (int64, bool) {
 // overwrites before reading it (the classic re-used "err"), is not loop-carried; the invariants' loopvarK numbering skips
 // it, so that "if err := f(); err != nil" and "err = f(); if err != nil" with an outer err are the same loop to a contract.
 func loopCarriedVars(info *types.Info, fd *ast.FuncDecl, loop ast.Stmt, body *ast.BlockStmt) []*types.Var {
-	all := assignedOuterVars(info, body)
+	all := notExitOnly(info, body, assignedOuterVars(info, body))
 	var out []*types.Var
 	for _, v := range all {
 		if !(writtenFirst(info, v, body.List) && deadAfter(info, fd, loop, v)) {
@@ -1916,4 +1973,125 @@ func deadAfter(info *types.Info, fd *ast.FuncDecl, loop ast.Stmt, v *types.Var) 
 		return false
 	}
 	return true
+}
+
+// callFuncValue: a call through a function value: a closure, a named function or a method value
+func (fr *frame) callFuncValue(p *Path, e *ast.CallExpr, fv Value, what string) []PV {
+	switch f := fv.(type) {
+	case *ClosureVal:
+		return fr.callClosure(p, e, f, what)
+	case *FuncRefVal:
+		var out []PV
+		for _, a := range fr.evalExprs(p, e.Args) {
+			q := a[0].(*Path)
+			args := a[1].([]Value)
+			var recv Value
+			if f.HasRecv {
+				recv = f.Recv
+			}
+			out = append(out, fr.dispatchCall(q, e, f.Fn, recv, args)...)
+		}
+		return out
+	}
+	return fr.callClosure(p, e, nil, what)
+}
+
+// notExitOnly drops the variables that the body assigns only on the way out of the loop: every assignment to them is
+// followed, in its own block, by nothing but further plain assignments and then an unlabelled break or a return. Such a
+// variable still has its pre-loop value at every loop head and after a normal end of the loop ("fatalErr, aborted = err,
+// true; break"), so it is neither havocked nor counted as a loop variable.
+func notExitOnly(info *types.Info, body *ast.BlockStmt, vars []*types.Var) []*types.Var {
+	var out []*types.Var
+	for _, v := range vars {
+		if !exitOnly(info, body.List, v) {
+			out = append(out, v)
+		}
+	}
+	return out
+}
+
+func exitOnly(info *types.Info, list []ast.Stmt, v *types.Var) bool {
+	ok := true
+	var scan func(list []ast.Stmt)
+	assigns := func(st ast.Stmt) bool {
+		as, isAs := st.(*ast.AssignStmt)
+		if !isAs {
+			return false
+		}
+		for _, l := range as.Lhs {
+			if id, isID := l.(*ast.Ident); isID && info.Uses[id] == v {
+				return true
+			}
+		}
+		return false
+	}
+	scan = func(list []ast.Stmt) {
+		for i, st := range list {
+			if assigns(st) {
+				leaves := false
+				for _, nx := range list[i+1:] {
+					if b, isB := nx.(*ast.BranchStmt); isB && b.Tok == token.BREAK && b.Label == nil {
+						leaves = true
+						break
+					}
+					if _, isR := nx.(*ast.ReturnStmt); isR {
+						leaves = true
+						break
+					}
+					if _, isAs := nx.(*ast.AssignStmt); !isAs {
+						break
+					}
+				}
+				if !leaves {
+					ok = false
+				}
+				continue
+			}
+			switch x := st.(type) {
+			case *ast.BlockStmt:
+				scan(x.List)
+			case *ast.IfStmt:
+				if x.Init != nil && assigns(x.Init) {
+					ok = false
+				}
+				scan(x.Body.List)
+				for e := x.Else; e != nil; {
+					switch ee := e.(type) {
+					case *ast.BlockStmt:
+						scan(ee.List)
+						e = nil
+					case *ast.IfStmt:
+						if ee.Init != nil && assigns(ee.Init) {
+							ok = false
+						}
+						scan(ee.Body.List)
+						e = ee.Else
+					default:
+						e = nil
+					}
+				}
+			case *ast.SwitchStmt:
+				// a break inside a switch leaves the switch, not the loop: assignments in there do not qualify
+				if mentions(info, x, v) {
+					ast.Inspect(x, func(n ast.Node) bool {
+						if s2, isS := n.(ast.Stmt); isS && assigns(s2) {
+							ok = false
+						}
+						return true
+					})
+				}
+			case *ast.ForStmt, *ast.RangeStmt:
+				if mentions(info, x, v) {
+					ast.Inspect(x, func(n ast.Node) bool {
+						if s2, isS := n.(ast.Stmt); isS && assigns(s2) {
+							ok = false
+						}
+						return true
+					})
+				}
+			}
+		}
+	}
+	scan(list)
+	return ok
 }
